@@ -125,7 +125,7 @@ Quiet ==
 
 (* a finished operation keeps no history: the state does not grow with the past *)
 Gone == [op |-> "gone", k |-> 0, id |-> 0, d |-> 0, f |-> {}, g |-> {}]
-NewOp(a, st) == IF st = "done" THEN [a |-> Gone, st |-> st] ELSE [a |-> a, st |-> st]
+NewOp(a, st) == IF st = "done" THEN [a |-> Gone, st |-> st, ab |-> FALSE] ELSE [a |-> a, st |-> st, ab |-> FALSE]
 
 Submit(a) ==
   /\ Len(ops) < MaxOps /\ a.id = Len(ops) + 1
@@ -140,6 +140,17 @@ Submit(a) ==
             /\ acck' = [acck EXCEPT ![a.k] = Append(@, a.id)]
   /\ UNCHANGED <<nw, lru, store, cache, h>>
   /\ last' = a
+
+(* The caller's context ends while its operation is accepted and unfinished: the caller   *)
+(* returns the context's error at once (AsyncC.R), the operation is ABANDONED but stays    *)
+(* in the queue / in its handler and is applied exactly as if the caller still waited -    *)
+(* nothing below looks at `ab`.  (Plans only: the flag changes no other behaviour.)        *)
+Cancel(i) ==
+  /\ Gated /\ Quiet
+  /\ i \in 1..Len(ops) /\ ops[i].st \in {"queued", "run"} /\ ~ops[i].ab
+  /\ ops' = [ops EXCEPT ![i].ab = TRUE]
+  /\ UNCHANGED <<nw, lru, store, cache, q, h, acck>>
+  /\ last' = [op |-> "cancel", id |-> i]
 
 Enq(i) ==
   /\ i \in 1..Len(ops) /\ ops[i].st = "enq"
@@ -229,7 +240,7 @@ Init == \E n \in NWs, l \in Lrus : InitWith(n, l)
 Next ==
   \/ \E o \in OpNames, k \in Keys, fi \in DOMAIN FPats, gi \in DOMAIN GPats :
         Submit([op |-> o, k |-> k, id |-> Len(ops) + 1, d |-> Len(ops) + 1, f |-> FPats[fi], g |-> GPats[gi]])
-  \/ \E i \in 1..Len(ops) : Enq(i)
+  \/ \E i \in 1..Len(ops) : Enq(i) \/ Cancel(i)
   \/ \E w \in Ws : Start(w) \/ Arrive(w) \/ Call(w, FALSE) \/ Call(w, TRUE) \/ Fin(w, FALSE) \/ Fin(w, TRUE)
   \/ \E w \in Ws, k \in Keys : Evict(w, k)
 Spec == Init /\ [][Next]_allvars
